@@ -133,7 +133,7 @@ def run(tier, seed):
     ck.proof = lib.proof_step('props/C18.v', CONE)
     ck.broken += ck.proof['broken']
     if not ck.proof['driver_ok']:
-        return ck.finish(rule='driver unavailable')
+        ck.notes['driver'] = 'unavailable: model-side runs skipped, searching with the implementation-side oracles only'
     import soupsieve as sv
     from soupsieve.css_match import Inputs
     from bs4 import BeautifulSoup
